@@ -6,7 +6,7 @@
    (client), trz.go / tsz.go: the capability checks in front of sendConfig.
    Executable definitions only; every literal comes from Gen.Consts. *)
 From Coq Require Import List NArith ZArith Bool.
-From Trzsz Require Import Base.Bytes Gen.Consts.
+From Trzsz Require Import Base.Bytes Gen.Consts Model.Detector.
 Import ListNotations.
 Open Scope N_scope.
 
@@ -430,6 +430,39 @@ Fixpoint rt_run (st : rt_state) (evs : list rt_event) : rt_state * list (rt_stat
   end.
 
 Definition rt_final (st : rt_state) (evs : list rt_event) : rt_state := fst (rt_run st evs).
+
+(* ------------------------------------------------------------------------------- *)
+(* 3c. wrapOutput in stand-by on ONE read of server output: the relay's own detector
+       (newTrzszDetector(relay, tmux) with the two literals of the source), the `tunnel`
+       argument it passes to detectTrzsz (which VALUE that is, is read from the source:
+       relayneg_detect_tunnel_arg), and listenForTunnel, which exchanges ":<id>:<port>" for
+       ":<id>:<relay port>" when the relay has a tunnel connector, the trigger carries a port
+       and the relay could listen ([relay_port] = 0: it could not).  The detector itself is
+       C06's model (Model/Detector.v). *)
+
+Definition rn_detect_tunnel_arg (has_connector tunnel_connected : bool) : bool :=
+  if relayneg_detect_tunnel_arg =? 0 then has_connector
+  else if relayneg_detect_tunnel_arg =? 1 then tunnel_connected
+  else relayneg_detect_tunnel_arg =? 2.
+
+Definition rn_relay_detector : det := new_det relayneg_detector_relay relayneg_detector_tmux.
+
+Definition rn_port_field (id : list N) (port : N) : list N := ch_colon :: id ++ ch_colon :: dec_of port.
+
+Definition rn_port_rewrite (has_connector : bool) (relay_port : N) (t : trigger) (out : list N) : list N :=
+  if has_connector && negb (t_port t =? 0) && negb (relay_port =? 0)
+  then replace_all (rn_port_field (t_id t) (t_port t)) (rn_port_field (t_id t) relay_port) out
+  else out.
+
+(* result: what is forwarded to the client, the trigger (Some = the relay is handshaking
+   now), the detector afterwards.  The relay does not run in a Windows environment. *)
+Definition rn_stand_by_read (has_connector tunnel_connected : bool) (d : det) (relay_port : N) (buf : list N)
+  : (list N * option trigger) * det :=
+  let '(out, trig, d') := detect false d (rn_detect_tunnel_arg has_connector tunnel_connected) buf in
+  match trig with
+  | None => (out, None, d')
+  | Some t => (rn_port_rewrite has_connector relay_port t out, Some t, d')
+  end.
 
 (* ------------------------------------------------------------------------------- *)
 (* 4. The two ends (Go client and Go server), and the negotiation through k relays *)
